@@ -17,7 +17,7 @@ def token(rng, n=12):
 
 
 def make_creds(rng, ngroups=None):
-    ngroups = ngroups if ngroups is not None else rng.choice([1, 2, 3, 5, 8, 16, 31, 32])
+    ngroups = ngroups if ngroups is not None else rng.choice([0, 1, 2, 3, 5, 8, 16, 31, 32])     # 0: a credential file whose accounts are in no group at all
     pool = GROUP_POOL[:ngroups]
     users = {}
     kinds = ["plain", "plain", "admin", "readonly", "plain", "admin-readonly"]
